@@ -198,6 +198,13 @@ def stepCodec (w : CodecW) : List String → CodecW × String
       | .ok (_, d) => (w, s!"ok n={rs.length} {hexOut d}")
       | .error e => (w, showErr e)
     | _, _, _ => (w, "bad-op")
+  | ["codec.ack_pushm", rs, delay, cap, mx] =>
+    match rangesOf rs, intOf delay, cap.toNat?, optIntOf mx with
+    | some rs, some delay, some cap, some mx =>
+      match Script.runFresh (ackScriptMax rs delay mx) cap with
+      | .ok (_, d) => (w, s!"ok n={ackRangesWritten rs delay mx} {hexOut d}")
+      | .error e => (w, showErr e)
+    | _, _, _, _ => (w, "bad-op")
   | ["codec.pn", t, bits, e] =>
     match t.toNat?, bits.toNat?, e.toNat? with
     | some t, some bits, some e => (w, s!"ok {decodePacketNumber t bits e}")
